@@ -624,7 +624,9 @@ StreamExecutor<INSTRUMENTS_USIZE> {
         &self.failed_events_avg_future_duration
     }
     fn report_scheduled_to_finish(&self) {
-        self.executor_status.store(ExecutorStatus::ScheduledToFinish, Relaxed);
+        // only a running executor may be scheduled to finish: an unconditional store could overwrite `StreamEnded` / `ProgrammaticallyEnded`
+        // if it lands after `register_execution_finish()` -- and the close callback would then find a non-ended status
+        _ = self.executor_status.compare_exchange(ExecutorStatus::Running, ExecutorStatus::ScheduledToFinish, Relaxed, Relaxed);
     }    
 }
 
